@@ -229,11 +229,12 @@ func c16Tokens(r *vh.Run, cases []c16TokCase) {
 // pion client, scripted broker, relay listener
 
 type c16Client struct {
-	pc     *webrtc.PeerConnection
-	dc     *webrtc.DataChannel
-	offer  string
-	opened chan struct{}
-	once   sync.Once
+	publicIP string // the address of the server-reflexive candidate added to the offer ("" = none)
+	pc       *webrtc.PeerConnection
+	dc       *webrtc.DataChannel
+	offer    string
+	opened   chan struct{}
+	once     sync.Once
 }
 
 var c16ClientCount int64
@@ -293,9 +294,26 @@ func c16NewClientInit(negotiatedOnly bool, variant int) (*c16Client, error) {
 	case <-time.After(10 * time.Second):
 		return nil, fmt.Errorf("ICE gathering did not complete")
 	}
-	c.offer, err = util.SerializeSessionDescription(pc.LocalDescription())
+	// Two clients in three also list a server-reflexive candidate with a public address of their own (a client behind
+	// a NAT): the proxy then knows a remote address for the client and passes it on to the relay as client_ip.
+	sd := *pc.LocalDescription()
+	if n := atomic.AddInt64(&c16PublicCount, 1); n%3 != 0 {
+		if i := strings.Index(sd.SDP, "a=candidate:"); i >= 0 {
+			c.publicIP = fmt.Sprintf("203.0.113.%d", 1+n%250)
+			cand := fmt.Sprintf("a=candidate:4242 1 udp 1677729535 %s %d typ srflx raddr 0.0.0.0 rport 0\r\n", c.publicIP, 40000+n%20000)
+			sd.SDP = sd.SDP[:i] + cand + sd.SDP[i:]
+		}
+	}
+	if ip := remoteIPFromSDP(sd.SDP); ip != nil {
+		c.publicIP = ip.String() // what the proxy will read out of this offer (also for offers without the added candidate)
+	} else {
+		c.publicIP = ""
+	}
+	c.offer, err = util.SerializeSessionDescription(&sd)
 	return c, err
 }
+
+var c16PublicCount int64
 
 func (c *c16Client) apply(answer string) error {
 	sd, err := util.DeserializeSessionDescription(answer)
@@ -420,11 +438,12 @@ func (b *c16Broker) add(sid string, p *c16Plan) {
 
 // relay listener: a WebSocket server that keeps connections until told to close them
 type c16Relay struct {
-	mu    sync.Mutex
-	conns map[string]*websocket.Conn // by URL path
-	hits  []string
-	srv   *httptest.Server
-	stop  chan struct{} // closed at the end of the run: stalled connections are let go
+	mu        sync.Mutex
+	conns     map[string]*websocket.Conn // by URL path
+	hits      []string
+	clientIPs []string // the client_ip parameter of every connection, in order of arrival ("" = absent)
+	srv       *httptest.Server
+	stop      chan struct{} // closed at the end of the run: stalled connections are let go
 }
 
 func c16NewRelay() *c16Relay {
@@ -433,6 +452,7 @@ func c16NewRelay() *c16Relay {
 	rl.srv = httptest.NewServer(http.HandlerFunc(func(w http.ResponseWriter, req *http.Request) {
 		rl.mu.Lock()
 		rl.hits = append(rl.hits, req.URL.Path)
+		rl.clientIPs = append(rl.clientIPs, req.URL.Query().Get("client_ip"))
 		rl.mu.Unlock()
 		c, err := up.Upgrade(w, req, nil)
 		if err != nil {
@@ -1093,6 +1113,20 @@ func (e *c16Env) legacyRelaySessions() {
 		time.Sleep(20 * time.Millisecond)
 	}
 	r.Case("exit/d/own-relay-url-three-at-once", fmt.Sprintf("%s -> %d relay connections", line, e.relay.nHits()-before), true)
+	// each relay connection names the address of one of these clients, and no address twice
+	e.relay.mu.Lock()
+	told := append([]string(nil), e.relay.clientIPs[before:]...)
+	e.relay.mu.Unlock()
+	var want []string
+	for _, c := range clients {
+		want = append(want, c.publicIP)
+	}
+	sort.Strings(told)
+	sort.Strings(want)
+	if len(told) == len(want) && strings.Join(told, ",") != strings.Join(want, ",") {
+		r.OracleFail("relay-told-another-clients-address", line, fmt.Sprintf("client_ip parameters %q, the clients' addresses %q", told, want),
+			"the relay connection of a session carries the address of that session's client (or none)")
+	}
 	for _, c := range clients {
 		select {
 		case <-c.opened:
